@@ -59,6 +59,17 @@ def probe(S, case, rng):
             d = _rel(np.asarray(r12[idx], float), a * np.asarray(r1[idx], float) + b * np.asarray(r2[idx], float))
             if d > tol:
                 out.append(("linearity:%s:%s" % ("analytic" if case["analytic"] else "numeric", name), "superposition error %.3g" % d))
+        # homogeneity over many orders of magnitude (flux densities in SI units of trace gases are ~1e-9 and below):
+        # scaling by a power of two commutes with every rounding, so the scaled run must reproduce the unscaled one
+        qs = sc.source(rng, *q1.shape, kind=rng.choice(["smooth", "smooth", "random"]))
+        ru = sc.call(S, case, q0=qs, bg=0.0)
+        for e in (-40, -55, 30):
+            rs = sc.call(S, case, q0=qs * 2.0 ** e, bg=0.0)
+            for name, idx in (("conc", 1), ("flx", 2)):
+                d = _rel(np.asarray(rs[idx], float) * 2.0 ** (-e), np.asarray(ru[idx], float))
+                if d > tol:
+                    out.append(("linearity:homogeneity:%s:%s" % ("analytic" if case["analytic"] else "numeric", name),
+                                "solve(2^%d q) / 2^%d differs from solve(q) by %.3g (smooth source)" % (e, e, d)))
     r0 = sc.call(S, case, bg=0.0)
     rb = sc.call(S, case, bg=2.5)
     dc = np.asarray(rb[1], float) - np.asarray(r0[1], float)
